@@ -23,14 +23,17 @@ import (
 // leaves of the exhaustive expression enumeration: one literal per type + an unknown name
 var c12Leaves = []string{"'a'", "1", "true", "u"}
 
-func enumExprs(depth int) []string {
+func enumExprs(depth int) []string { return enumExprsOver(depth, c12Leaves) }
+
+// all fully parenthesised expression trees of depth <= depth over the given leaves
+func enumExprsOver(depth int, leaves []string) []string {
 	if depth == 0 {
-		return c12Leaves
+		return leaves
 	}
-	sub := enumExprs(depth - 1)
-	out := append([]string{}, c12Leaves...)
+	sub := enumExprsOver(depth-1, leaves)
+	out := append([]string{}, leaves...)
 	seen := map[string]bool{}
-	for _, l := range c12Leaves {
+	for _, l := range leaves {
 		seen[l] = true
 	}
 	add := func(s string) {
@@ -222,15 +225,60 @@ func randExpr(r *rand.Rand, d int) string {
 	return "( " + randExpr(r, d-1) + " " + opSpelling[binOpNames[r.Intn(len(binOpNames))]] + " " + randExpr(r, d-1) + " )"
 }
 
+// variables of the well-typed stream: every one keeps the type the checker assumes from the
+// start (unknown names and `match` are strings, `matchLength` is a number), so bodies that only
+// assign strings to the string variables are SingleTyped
+var c12TypedVars = []struct{ name, typ, init string }{
+	{"x", "string", ""}, {"y", "string", ""}, {"match", "string", ""}, {"matchLength", "number", ""},
+}
+
+// random body that is well typed by the documented rules (generator knowledge); `single`
+// = no assignment changes the type of a variable
+func typedStmts(r *rand.Rand, ctx string, n int, d int, inLoop bool, single *bool) string {
+	parts := []string{}
+	for i := 0; i < n; i++ {
+		switch k := r.Intn(10); {
+		case k < 3:
+			v := []string{"x", "y"}[r.Intn(2)]
+			if r.Intn(6) == 0 {
+				// a deliberate change of type (outside SingleTyped); the variable is not read afterwards
+				// with its new type by this generator, so the body stays accepted
+				*single = false
+				parts = append(parts, "set w to "+genTree(r, allTypes3[1+r.Intn(2)], 2).renderMin(1))
+			} else {
+				parts = append(parts, "set "+v+" to "+genTree(r, "string", 2).renderMin(1))
+			}
+		case k < 4:
+			parts = append(parts, "debug "+genTree(r, allTypes3[r.Intn(3)], 1).renderMin(1))
+		case k < 6 && d > 0:
+			s := "if " + genTree(r, "boolean", 2).renderMin(1) + " then " + typedStmts(r, ctx, r.Intn(3), d-1, inLoop, single)
+			if r.Intn(2) == 0 {
+				s += " else " + typedStmts(r, ctx, 1+r.Intn(2), d-1, inLoop, single)
+			}
+			parts = append(parts, s+" end")
+		case k < 7 && d > 0:
+			parts = append(parts, "loop "+typedStmts(r, ctx, r.Intn(3), d-1, true, single)+" break end")
+		case k < 8 && inLoop:
+			parts = append(parts, "if "+genTree(r, "boolean", 1).renderMin(1)+" then break end")
+		default:
+			typ := "boolean"
+			if ctx == "t" {
+				typ = allTypes3[r.Intn(2)]
+			}
+			parts = append(parts, "return "+genTree(r, typ, 2).renderMin(1))
+		}
+	}
+	return strings.Join(parts, " ")
+}
+
 func genC12(r *rand.Rand, tier string, st *Stats) []Case {
 	g := &c12gen{st: st}
 	thorough := tier == "thorough"
-	// (1) one statement over all expression trees of depth <= 2 (depth <= 1 exhaustively in quick)
+	// (1) one statement over ALL expression trees of depth <= 1 over a literal of each type and an
+	// unknown name; depth 2: exhaustively over the three typed literals in thorough (an unknown name
+	// is a string to the checker, like 'a'), a random sample over the four leaves in quick
 	exprs := enumExprs(1)
-	if thorough {
-		exprs = enumExprs(2)
-	}
-	st.Counts["enum_exprs"] = len(exprs)
+	st.Counts["enum_exprs_depth1"] = len(exprs)
 	for _, e := range exprs {
 		for _, ctx := range []string{"t", "p"} {
 			g.add("e", ctx, "return "+e, true, "expr")
@@ -238,14 +286,20 @@ func genC12(r *rand.Rand, tier string, st *Stats) []Case {
 		g.add("e", "t", "if "+e+" then return 'T' end return 'F'", true, "expr")
 		g.add("e", "t", "set x to "+e+" return x", true, "expr")
 	}
-	if !thorough {
-		// sample of depth-2 trees
+	if thorough {
+		d2 := enumExprsOver(2, c12Leaves[:3])
+		st.Counts["enum_exprs_depth2"] = len(d2)
+		for _, e := range d2 {
+			g.add("f", "t", "return "+e, true, "expr2")
+			g.add("f", "p", "return "+e, true, "expr2")
+		}
+	} else {
 		d2 := enumExprs(2)
 		st.Counts["enum_exprs_depth2_total"] = len(d2)
 		for i := 0; i < 1500; i++ {
 			e := d2[r.Intn(len(d2))]
 			ctx := []string{"t", "p"}[r.Intn(2)]
-			g.add("s", ctx, "return "+e, true, "expr")
+			g.add("s", ctx, "return "+e, true, "expr2")
 		}
 	}
 	// (2) statement lists over the representative expressions
@@ -271,6 +325,20 @@ func genC12(r *rand.Rand, tier string, st *Stats) []Case {
 		body, runnable := randStmts(r, 1+r.Intn(4), 2, false)
 		g.add("r", []string{"t", "p"}[r.Intn(2)], body, runnable, "random")
 	}
+	// (3b) random WELL-TYPED bodies (mostly single-typed): the soundness half on the real evaluator
+	leafVars = c12TypedVars
+	ntyped := sizes(tier, 2500, 60000)
+	for i := 0; i < ntyped; i++ {
+		ctx := []string{"t", "p"}[r.Intn(2)]
+		single := true
+		body := typedStmts(r, ctx, 1+r.Intn(4), 2, false, &single)
+		cls := "typed"
+		if !single {
+			cls = "typedmulti"
+		}
+		g.add("w", ctx, body, true, cls)
+	}
+	leafVars = treeVars
 	// (4) the documented shapes of known issues, so that they stay visible
 	for _, b := range []string{
 		"loop loop break end break end return 'a'",
